@@ -98,6 +98,11 @@ func (S06) RunTape(t *sim.Tape, st *sim.Stats, keepLog bool) *sim.Outcome {
 	budget := 4 + t.Choice(30, "cfg.size")
 	b1, b2, b3 := budget, 12, budget
 	V := gen.Value(t, codec, links, &b1, 0)
+	if !codec.RawOnly && t.Pct(25, "cfg.scalarblock") {
+		// a block that is one scalar (a byte string, a string, a number ...): depth 5 leaves only scalar kinds
+		one := 1
+		V = gen.Value(t, codec, links, &one, 5)
+	}
 	V2 := gen.Value(t, codec, links, &b2, 0)
 	V3 := gen.Value(t, codec, links, &b3, 0)
 	if model.Equal(V2.Canon(codec.SortMode), V.Canon(codec.SortMode)) {
